@@ -7,63 +7,63 @@ Import ListNotations.
 Local Open Scope N_scope.
 
 Example read_index_nonvacuous :
-  exists p r, rreach vs3 p /\ In r (snd p) /\ majority vs3 (has_acker r) /\ rd_c0 r <> [].
+  exists p r, rreach vs3 [] p /\ In r (snd p) /\ majority vs3 [] (has_acker r) /\ rd_c0 r <> [].
 Proof.
-  assert (R0 : rreach vs3 (s0, [])).
+  assert (R0 : rreach vs3 [] (s0, [])).
   { apply rreach_init. repeat split; intros; reflexivity. }
   (* node 1 campaigns in term 1, votes for itself, node 2 votes for it *)
-  assert (R1 := rreach_step vs3 _ _ R0 (RProto vs3 _ _ [] (SCampaign vs3 s0 1 1 ltac:(dec)))).
-  match type of R1 with rreach _ (?s, _) => set (s1 := s) in R1 end.
-  eassert (V1 : sstep vs3 s1 _).
-  { apply (SVote vs3 s1 1 1 1); [dec|dec|dec|dec|intros r []|right; split; dec]. }
-  assert (R2 := rreach_step vs3 _ _ R1 (RProto vs3 _ _ [] V1)). clear V1.
-  match type of R2 with rreach _ (?s, _) => set (s2 := s) in R2 end.
-  eassert (V2 : sstep vs3 s2 _).
-  { apply (SVote vs3 s2 2 1 1); [dec|dec|dec|dec| |right; split; dec].
+  assert (R1 := rreach_step vs3 [] _ _ R0 (RProto vs3 [] _ _ [] (SCampaign vs3 [] s0 1 1 ltac:(dec)))).
+  match type of R1 with rreach _ _ (?s, _) => set (s1 := s) in R1 end.
+  eassert (V1 : sstep vs3 [] s1 _).
+  { apply (SVote vs3 [] s1 1 1 1); [dec|dec|dec|dec|intros r []|right; split; dec]. }
+  assert (R2 := rreach_step vs3 [] _ _ R1 (RProto vs3 [] _ _ [] V1)). clear V1.
+  match type of R2 with rreach _ _ (?s, _) => set (s2 := s) in R2 end.
+  eassert (V2 : sstep vs3 [] s2 _).
+  { apply (SVote vs3 [] s2 2 1 1); [dec|dec|dec|dec| |right; split; dec].
     intros r [E|[]] A B. subst r. reflexivity. }
-  assert (R3 := rreach_step vs3 _ _ R2 (RProto vs3 _ _ [] V2)). clear V2.
-  match type of R3 with rreach _ (?s, _) => set (s3 := s) in R3 end.
+  assert (R3 := rreach_step vs3 [] _ _ R2 (RProto vs3 [] _ _ [] V2)). clear V2.
+  match type of R3 with rreach _ _ (?s, _) => set (s3 := s) in R3 end.
   (* it becomes leader of term 1 and appends payload 7 *)
-  eassert (B : sstep vs3 s3 _).
-  { eapply (SBecomeLeader vs3 s3 1 1); [dec|dec|dec|unfold majority; cbv; lia| |reflexivity].
+  eassert (B : sstep vs3 [] s3 _).
+  { eapply (SBecomeLeader vs3 [] s3 1 1); [dec|dec|dec|reflexivity| |reflexivity].
     apply (BecomeLeader (sg s3) 1 1). dec. }
-  assert (R4 := rreach_step vs3 _ _ R3 (RProto vs3 _ _ [] B)). clear B.
-  match type of R4 with rreach _ (?s, _) => set (s4 := s) in R4 end.
-  eassert (A : sstep vs3 s4 _).
-  { eapply (SLeaderAppend vs3 s4 1 1 7); [dec|dec|dec|dec|reflexivity]. }
-  assert (R5 := rreach_step vs3 _ _ R4 (RProto vs3 _ _ [] A)). clear A.
-  match type of R5 with rreach _ (?s, _) => set (s5 := s) in R5 end.
+  assert (R4 := rreach_step vs3 [] _ _ R3 (RProto vs3 [] _ _ [] B)). clear B.
+  match type of R4 with rreach _ _ (?s, _) => set (s4 := s) in R4 end.
+  eassert (A : sstep vs3 [] s4 _).
+  { eapply (SLeaderAppend vs3 [] s4 1 1 7); [dec|dec|dec|dec|reflexivity]. }
+  assert (R5 := rreach_step vs3 [] _ _ R4 (RProto vs3 [] _ _ [] A)). clear A.
+  match type of R5 with rreach _ _ (?s, _) => set (s5 := s) in R5 end.
   (* node 2 accepts the entry; both acknowledge; the leadership commits position 0 *)
-  eassert (F : sstep vs3 s5 _).
-  { eapply (SFollowerAppend vs3 s5 2 1 0%nat 1%nat 0); [dec|dec|dec|dec|reflexivity]. }
-  assert (R6a := rreach_step vs3 _ _ R5 (RProto vs3 _ _ [] F)). clear F.
-  match type of R6a with rreach _ (?s, _) => set (s6a := s) in R6a end.
+  eassert (F : sstep vs3 [] s5 _).
+  { eapply (SFollowerAppend vs3 [] s5 2 1 0%nat 1%nat 0); [dec|dec|dec|dec|reflexivity]. }
+  assert (R6a := rreach_step vs3 [] _ _ R5 (RProto vs3 [] _ _ [] F)). clear F.
+  match type of R6a with rreach _ _ (?s, _) => set (s6a := s) in R6a end.
   (* node 2 crashes before acknowledging, loses the entry, and accepts it again after the restart *)
-  eassert (Z : sstep vs3 s6a _).
-  { eapply (SLose vs3 s6a 2 0%nat); [intros t k' []|reflexivity]. }
-  assert (R6b := rreach_step vs3 _ _ R6a (RProto vs3 _ _ [] Z)). clear Z.
-  match type of R6b with rreach _ (?s, _) => set (s6b := s) in R6b end.
-  eassert (F : sstep vs3 s6b _).
-  { eapply (SFollowerAppend vs3 s6b 2 1 0%nat 1%nat 0); [dec|dec|dec|dec|reflexivity]. }
-  assert (R6 := rreach_step vs3 _ _ R6b (RProto vs3 _ _ [] F)). clear F.
-  match type of R6 with rreach _ (?s, _) => set (s6 := s) in R6 end.
-  eassert (K1 : sstep vs3 s6 _) by (apply (SAck vs3 s6 1 1 1%nat); dec).
-  assert (R7 := rreach_step vs3 _ _ R6 (RProto vs3 _ _ [] K1)). clear K1.
-  match type of R7 with rreach _ (?s, _) => set (s7 := s) in R7 end.
-  eassert (K2 : sstep vs3 s7 _) by (apply (SAck vs3 s7 2 1 1%nat); dec).
-  assert (R8 := rreach_step vs3 _ _ R7 (RProto vs3 _ _ [] K2)). clear K2.
-  match type of R8 with rreach _ (?s, _) => set (s8 := s) in R8 end.
-  eassert (C : sstep vs3 s8 _).
-  { apply (SCommit vs3 s8 1 0%nat (1, 7)); [dec|dec|dec|unfold majority; cbv; lia]. }
-  assert (R9 := rreach_step vs3 _ _ R8 (RProto vs3 _ _ [] C)). clear C.
-  match type of R9 with rreach _ (?s, _) => set (s9 := s) in R9 end.
+  eassert (Z : sstep vs3 [] s6a _).
+  { eapply (SLose vs3 [] s6a 2 0%nat); [intros t k' []|reflexivity]. }
+  assert (R6b := rreach_step vs3 [] _ _ R6a (RProto vs3 [] _ _ [] Z)). clear Z.
+  match type of R6b with rreach _ _ (?s, _) => set (s6b := s) in R6b end.
+  eassert (F : sstep vs3 [] s6b _).
+  { eapply (SFollowerAppend vs3 [] s6b 2 1 0%nat 1%nat 0); [dec|dec|dec|dec|reflexivity]. }
+  assert (R6 := rreach_step vs3 [] _ _ R6b (RProto vs3 [] _ _ [] F)). clear F.
+  match type of R6 with rreach _ _ (?s, _) => set (s6 := s) in R6 end.
+  eassert (K1 : sstep vs3 [] s6 _) by (apply (SAck vs3 [] s6 1 1 1%nat); dec).
+  assert (R7 := rreach_step vs3 [] _ _ R6 (RProto vs3 [] _ _ [] K1)). clear K1.
+  match type of R7 with rreach _ _ (?s, _) => set (s7 := s) in R7 end.
+  eassert (K2 : sstep vs3 [] s7 _) by (apply (SAck vs3 [] s7 2 1 1%nat); dec).
+  assert (R8 := rreach_step vs3 [] _ _ R7 (RProto vs3 [] _ _ [] K2)). clear K2.
+  match type of R8 with rreach _ _ (?s, _) => set (s8 := s) in R8 end.
+  eassert (C : sstep vs3 [] s8 _).
+  { apply (SCommit vs3 [] s8 1 0%nat (1, 7)); [dec|dec|dec|reflexivity]. }
+  assert (R9 := rreach_step vs3 [] _ _ R8 (RProto vs3 [] _ _ [] C)). clear C.
+  match type of R9 with rreach _ _ (?s, _) => set (s9 := s) in R9 end.
   (* the leader takes a read request; nodes 1 and 2 answer the heartbeat *)
-  assert (Q := rreach_step vs3 _ _ R9 (RRequest vs3 s9 [] 1 1 0%nat (1, 7) ltac:(dec) ltac:(dec) ltac:(left; reflexivity))).
+  assert (Q := rreach_step vs3 [] _ _ R9 (RRequest vs3 [] s9 [] 1 1 0%nat (1, 7) ltac:(dec) ltac:(dec) ltac:(left; reflexivity))).
   pose (r1 := mkRead 1 (commits s9) (tm s9) []).
-  assert (H1 := rreach_step vs3 _ _ Q (RHeartbeatAck vs3 s9 [] r1 [] 1 ltac:(dec))).
+  assert (H1 := rreach_step vs3 [] _ _ Q (RHeartbeatAck vs3 [] s9 [] r1 [] 1 ltac:(dec))).
   pose (r2 := mkRead 1 (commits s9) (tm s9) [1]).
-  assert (H2 := rreach_step vs3 _ _ H1 (RHeartbeatAck vs3 s9 [] r2 [] 2 ltac:(dec))).
-  eexists. eexists. split; [exact H2|]. split; [left; reflexivity|]. split; [unfold majority; cbv; lia|discriminate].
+  assert (H2 := rreach_step vs3 [] _ _ H1 (RHeartbeatAck vs3 [] s9 [] r2 [] 2 ltac:(dec))).
+  eexists. eexists. split; [exact H2|]. split; [left; reflexivity|]. split; [reflexivity|discriminate].
 Qed.
 
 Print Assumptions read_index_nonvacuous.
